@@ -6,16 +6,19 @@ import concurrent.futures as cf, glob, json, os, re, subprocess, sys
 args = [a for a in sys.argv[1:] if not a.startswith("--")]
 jobs = int(sys.argv[sys.argv.index("--jobs") + 1]) if "--jobs" in sys.argv else 3
 if "--jobs" in sys.argv: args = [a for a in args if a != str(jobs)]
+seed = sys.argv[sys.argv.index("--seed") + 1] if "--seed" in sys.argv else "1"
+if "--seed" in sys.argv: args = [a for a in args if a != seed]
 EXTRA = {"C01-m1": ["C09"], "C03-m2": ["C09", "C01"], "C04-m1": ["C06"], "C05-m1": ["C13"], "C07-m1": ["C06"], "C09-m1": ["C03"],
          "C11-m2": ["C05"], "C14-m2": ["C19"], "C19-m2": ["C02"]}
 ids = args or sorted(os.path.basename(d) for d in glob.glob("/verif/seeded/C*") if os.path.isdir(d))
-outp = "/verif/seeded/MATRIX.json"
+outp = "/verif/seeded/MATRIX.json" if seed == "1" else "/verif/seeded/MATRIX-seed%s.json" % seed
 mat = json.load(open(outp)) if os.path.exists(outp) else {}
 
 
 def one(sid):
     props = [sid[:3]] + EXTRA.get(sid, [])
-    p = subprocess.run(["python3", "/verif/tools/try_seed.py", "/verif/seeded/" + sid] + props, stdout=subprocess.PIPE, stderr=subprocess.STDOUT, timeout=7200)
+    p = subprocess.run(["python3", "/verif/tools/try_seed.py", "/verif/seeded/" + sid] + props, stdout=subprocess.PIPE, stderr=subprocess.STDOUT,
+                       timeout=7200, env=dict(os.environ, VERIF_SEED=seed))
     res = {}
     for l in p.stdout.decode().splitlines():
         m = re.match(r"(\S+) (C\d\d) rc=(-?\d+)\s+(VIOLATION)?\s*(\[.*?\]) (\[.*\])$", l)
